@@ -313,8 +313,19 @@ func (n *fieldOpNode) Type() NodeType {
 	return NodeFieldOp
 }
 
+func fieldValue(data Data, path []string) (value []byte, isContainer bool) {
+	if ed, ok := data.(eventData); ok {
+		return ed.get(path...)
+	}
+	return data.Get(path...), false
+}
+
 func (n *fieldOpNode) Check(data Data) bool {
-	eventData := data.Get(n.fieldPath...)
+	eventData, isContainer := fieldValue(data, n.fieldPath)
+	if isContainer {
+		// array and object values are considered as not matched
+		return false
+	}
 	// fast check for data
 	if n.op != fieldRegexOp && n.op != fieldContainsAnyOp &&
 		len(eventData) < n.minValLen {
